@@ -47,6 +47,7 @@ func c06Opts() lab.GenOpts {
 		Engines: []string{"v1", "v2"}, MaxSources: 3, MaxDests: 3, MaxRecords: 14, MaxProcs: 2,
 		Nacks: true, ProcErrors: true, Filters: true, Splits: true, Conditions: true, Workers: true,
 		UnlimitedDLQ: true, GateCommits: true, GateAcks: true, FreeSched: 15,
+		AckSendFaults: 25, AckSendNoBreak: true,
 		ClientKinds: []string{"stopandwait", "stopwait", "stopallwait"}, ClientProb: 1.0,
 	}
 }
